@@ -221,3 +221,58 @@ ASSUMPTIONS = [
     "asyncio is trusted behind the contract stubs: a cancelled task/future does not continue, asyncio.timeout cancels what it guards, locks are mutually exclusive, queues are FIFO, tasks switch only at awaits; interleavings inside one await are represented by 'the awaited object completes with any admissible value, times out, or the connection closes'",
     "TaskRegistry.start_task replaces the running instance and the instance sleeps wait_before_start before its target (C36)",
 ]
+
+
+# ------------------------------------------------------------------ what the lemmas above rely on: RemoteValue.process
+
+from xknx.dpt import DPTBinary  # noqa: E402
+from xknx.remote_value import RemoteValueSwitch  # noqa: E402
+from xknx.telegram import TelegramDirection  # noqa: E402
+
+
+class RecStateUpdater:
+    def update_received(self, rv):
+        ghost("state_updater").append(rv)
+
+
+class RecCb:
+    def __call__(self, value):
+        ghost("cb").append(value)
+
+
+RVS = Obj(
+    RemoteValueSwitch,
+    xknx=Obj(World, state_updater=Const(RecStateUpdater())),
+    group_address=None,
+    group_address_state=Obj(GroupAddress, raw=1),
+    passive_group_addresses=Const([]),
+    device_name="d",
+    feature_name="f",
+    invert=Bool(),
+    _value=Choice(None, True, False),
+    _payload=None,
+    telegram=None,
+    after_update_cb=Const(RecCb()),
+    _sync_state=None,
+)
+
+
+@lemma("C42", params=dict(rv=RVS, bit=Int(0, 1), dst=Int(1, 2), response=Bool(), always=Bool()))
+def remote_value_process_follows_the_stub_contract(rv, bit, dst, response, always):
+    """The contract StubRemoteValue offers, proved for the real RemoteValueSwitch.process: a telegram for
+    another address is not accepted and changes nothing; an accepted one stores the decoded value (bit
+    xor invert) and calls after_update_cb exactly once when the value was unknown, changed, or
+    always_callback is set - and not otherwise."""
+    payload = (GroupValueResponse if response else GroupValueWrite)(DPTBinary(bit))
+    t = Telegram(destination_address=GroupAddress(dst), direction=TelegramDirection.INCOMING, payload=payload)
+    before = rv._value
+    accepted = rv.process(t, always_callback=always)
+    decoded = bool(bit) != rv.invert
+    if dst != 1:
+        assert not accepted and rv._value == before and ghost("cb") == []
+        return
+    assert accepted and rv._value == decoded
+    if before is None or always or before != decoded:
+        assert ghost("cb") == [decoded] and rv.telegram is t
+    else:
+        assert ghost("cb") == []
